@@ -173,6 +173,29 @@ def disk_corruption_case(corruption, res, prewarm_hit):
         shutil.rmtree(tmp, ignore_errors=True)
 
 
+def sharing_case(res, runner_name, bname, make_backend):
+    """Equal arguments must hit the cache whatever objects carry them: run 1 passes ONE list object for both parameters,
+    run 2 passes two equal lists (and the other way round).  A key that depends on object sharing misses here."""
+    set_case("C09", {"sharing": True, "backend": bname}, runner_name)
+    run = run_sync if runner_name == "sync" else run_async
+    Runner = SyncRunner if runner_name == "sync" else AsyncRunner
+    from harness.core import tagged_node
+    for first_shared in (True, False):
+        log = Log()
+        g = Graph([tagged_node("f", ["a", "b"], ["r"], log, cache=True)])
+        runner = Runner(cache=make_backend())
+        one = [1, 2]
+        shared, distinct = {"a": one, "b": one}, {"a": [1, 2], "b": [1, 2]}
+        seq = (shared, distinct) if first_shared else (distinct, shared)
+        outs = [run(g, v, runner=runner) for v in seq]
+        res.case(repr(("sharing", first_shared, bname, runner_name)), nontrivial=True, sample={"first_shared": first_shared, "backend": bname, "outcomes": outs})
+        rep = {"harness": "C09", "spec": {"backend": bname}, "runner": runner_name, "part": "sharing"}
+        if outs[0] != outs[1] or outs[0]["status"] != "completed":
+            res.fail(kind="oracle", function="compute_cache_key", what=f"equal arguments with different object sharing give different outcomes ({bname}): {outs}", runner=runner_name, replay=rep)
+        elif log.count("f") != 1:
+            res.fail(kind="oracle", function="compute_cache_key", what=f"equal arguments carried by {'shared then distinct' if first_shared else 'distinct then shared'} objects: the cacheable node ran {log.count('f')} times, expected one run and one hit ({bname})", runner=runner_name, replay=rep)
+
+
 def run(tier, seed, functions):
     n = 25 if tier == "quick" else 400
     res = Result("C09", "DAG and gated programs with random cacheable subsets x run sequences of 3 sharing one backend (unbounded, LRU 0..2, disk) vs the uncached run; twin nodes on one function "
@@ -193,6 +216,9 @@ def run(tier, seed, functions):
             for bname, mk in (("mem", lambda: InMemoryCache()), ("disk", lambda: DiskCache(tmp + "/twin_" + kind))):
                 for r in ("sync", "async"):
                     twin_nodes_case(kind, res, r, bname, mk)
+        for bname, mk in (("mem", lambda: InMemoryCache()), ("disk", lambda: DiskCache(tempfile.mkdtemp(prefix="sharing", dir=tmp)))):
+            for r in ("sync", "async"):
+                sharing_case(res, r, bname, mk)
         for c in CORRUPTIONS:
             for pre in (False, True):
                 disk_corruption_case(c, res, pre)
@@ -208,6 +234,9 @@ def replay(rep):
     try:
         if rep["part"] == "disk":
             disk_corruption_case(sp["corruption"], res, sp["prewarm_hit"])
+        elif rep["part"] == "sharing":
+            mk = (lambda: InMemoryCache()) if sp["backend"] == "mem" else (lambda: DiskCache(tempfile.mkdtemp(prefix="sharing", dir=tmp)))
+            sharing_case(res, rep["runner"], sp["backend"], mk)
         elif rep["part"] == "twin":
             mk = (lambda: InMemoryCache()) if sp["backend"] == "mem" else (lambda: DiskCache(tmp))
             twin_nodes_case(sp["twin"], res, rep["runner"], sp["backend"], mk)
